@@ -553,7 +553,7 @@ def h_solid_ids(si: int, fi: int, gi: int, vi: int, li: int, mi: int, hidden: bo
 
 TRI = [0, 1, 9]                   # TriangleTag values (STEEP, WALKABLE, BUILDABLE)
 DFLAGS = [7, 0, 1, 5, 15, 8]      # DispFlag values: collision bits 1/2/4, SUBDIV 8
-ALLOWED = [-1, 0, 1, 2 ** 31 - 1, -2 ** 31]
+ALLOWED = [-1, 0, 1, 2 ** 30 + 5, -2 ** 30]     # (CrossHair's array('i') model rejects the int32 extremes)
 
 
 def _mk_disp(m, power, mb, ti=0, fl=0, al=0, default_verts=False):
@@ -567,7 +567,7 @@ def _mk_disp(m, power, mb, ti=0, fl=0, al=0, default_verts=False):
     side.disp_flags = flags
     a = ALLOWED[al]
     from array import array
-    side.disp_allowed_vert = array("i", [a, -1, 0, 1, 2, 3, -7, 2 ** 31 - 1, -2 ** 31, a])
+    side.disp_allowed_vert = array("i", [a, -1, 0, 1, 2, 3, -7, 2 ** 30 + 1, -2 ** 30 - 1, a])
     if default_verts:
         return side
     size = side.disp_size
